@@ -290,6 +290,26 @@ func checkRegistry(c regCase) evid.Outcome {
 	s := ref.SpecFor(c.Uplink, c.CID)
 	if s == nil && c.CID >= 0x80 {
 		// proprietary: after a registration the constructor must give independent objects of the registered size
+		// a stream decoded BEFORE the registration frames the CID without payload ...
+		mt := byte(ref.MTUnconfDown)
+		filler := byte(0x06)
+		if c.Uplink {
+			mt, filler = ref.MTUnconfUp, 0x02
+		}
+		decode := func(fopts []byte) (int, error) {
+			f := ref.Frame{MType: mt, DevAddr: 1, FPort: -1, FOpts: fopts}
+			var q lorawan.PHYPayload
+			if err := q.UnmarshalBinary(f.Encode()); err != nil {
+				return 0, err
+			}
+			if err := q.DecodeFOptsToMACCommands(); err != nil {
+				return 0, err
+			}
+			return len(q.MACPayload.(*lorawan.MACPayload).FHDR.FOpts), nil
+		}
+		if n, err := decode([]byte{c.CID, filler, filler}); err != nil || n != 3 {
+			return evid.Fail("unregistered proprietary CID %#02x uplink=%v followed by two commands decodes to %d commands (err %v), want 3", c.CID, c.Uplink, n, err)
+		}
 		if err := lorawan.RegisterProprietaryMACCommand(c.Uplink, lorawan.CID(c.CID), 2); err != nil {
 			return evid.Fail("RegisterProprietaryMACCommand(%v, %#02x, 2): %v", c.Uplink, c.CID, err)
 		}
@@ -298,6 +318,13 @@ func checkRegistry(c regCase) evid.Outcome {
 		bb, _, eb := lorawan.GetMACPayloadAndSize(c.Uplink, lorawan.CID(c.CID))
 		if ea != nil || eb != nil || sa != 2 {
 			return evid.Fail("proprietary CID %#02x registered with size 2: registry answers size %d err %v", c.CID, sa, ea)
+		}
+		// ... and AFTER it with the registered size, in that direction only
+		if n, err := decode([]byte{c.CID, filler, filler}); err != nil || n != 1 {
+			return evid.Fail("proprietary CID %#02x uplink=%v registered with size 2 after it had been decoded unregistered: the stream %02x %02x %02x decodes to %d commands (err %v), want 1 (stale size)", c.CID, c.Uplink, c.CID, filler, filler, n, err)
+		}
+		if _, _, err := lorawan.GetMACPayloadAndSize(!c.Uplink, lorawan.CID(c.CID)); err == nil {
+			return evid.Fail("proprietary CID %#02x registered for uplink=%v is also known for the other direction", c.CID, c.Uplink)
 		}
 		_ = a.UnmarshalBinary([]byte{0xaa, 0xbb})
 		_ = bb.UnmarshalBinary([]byte{0xcc, 0xdd})
@@ -474,8 +501,17 @@ func checkRaw(c rawCase) evid.Outcome {
 			return evid.Outcome{Class: "data/rejected"}
 		}
 		if err != nil {
-			// the property does not say which inputs must be accepted (C08 covers accepted ones); only record
-			return evid.Outcome{Class: "data/lib-rejected"}
+			if want.FPort == 0 && len(want.FOpts) > 0 {
+				return evid.Outcome{Class: "data/lib-rejected"} // FPort 0 together with FOpts: legality differs between 1.0.x and 1.1 (K1's neighbourhood)
+			}
+			return evid.Fail("MACPayload.UnmarshalBinary rejects the specification-conformant bytes %x (FOptsLen %d, FPort %d, %d payload bytes): %v", []byte(b), len(want.FOpts), want.FPort, len(want.FRM), err)
+		}
+		// the same through the frame decoder
+		for _, mt := range []byte{ref.MTUnconfUp, ref.MTUnconfDown, ref.MTConfUp, ref.MTConfDown} {
+			var ph lorawan.PHYPayload
+			if err := ph.UnmarshalBinary(frame(mt)); err != nil {
+				return evid.Fail("PHYPayload.UnmarshalBinary rejects the specification-conformant data frame %x (MType %d, FOptsLen %d, FPort %d): %v", frame(mt), mt, len(want.FOpts), want.FPort, err)
+			}
 		}
 		phy := lorawan.PHYPayload{MHDR: lorawan.MHDR{MType: lorawan.UnconfirmedDataUp}, MACPayload: &m}
 		got, err := gen.FromLib(&phy)
